@@ -58,6 +58,7 @@ type universe struct {
 	// resolution of a ref query has produced, keyed "path@version"
 	pseudo map[string]*uVersion
 	devs   []*uVersion // untagged revisions that change a project's configuration
+	pseudoEdges int    // requirement edges onto pseudo-versions
 	// tagless projects have commits but no tagged version: "latest" falls back to the default branch
 	tagless map[string]string // project path -> directory in its repository
 }
@@ -197,6 +198,7 @@ func genUniverse(r *rand.Rand) *universe {
 		name string
 	}
 	var projs []pd
+	rootTaken := map[string]bool{}
 	for k := 0; k < nrepo; k++ {
 		addr := fmt.Sprintf("github.com/org/r%d", k)
 		u.repos[addr] = &fakeRepo{addr: addr, byRev: map[string]*uVersion{}, refs: map[string]string{}}
@@ -206,6 +208,10 @@ func genUniverse(r *rand.Rand) *universe {
 		dir := fmt.Sprintf("p%d", i)
 		if r.IntN(5) == 0 {
 			dir = fmt.Sprintf("sub/p%d", i)
+		}
+		if !rootTaken[repo.addr] && r.IntN(6) == 0 {
+			dir = "" // the project at the root of its repository: its path is the repository's address
+			rootTaken[repo.addr] = true
 		}
 		name := fmt.Sprintf("proj%d", i)
 		if r.IntN(4) == 0 {
@@ -288,6 +294,31 @@ func genUniverse(r *rand.Rand) *universe {
 			}
 		}
 	}
+	// a few requirements on untagged commits (pseudo-versions): the content of such a version is the project directory at
+	// that revision, which the resolver has to fetch by revision rather than by tag
+	for k := r.IntN(3); k > 0 && len(u.devs) > 0; k-- {
+		dv := u.devs[r.IntN(len(u.devs))]
+		if _, tagless := u.tagless[dv.Path]; tagless {
+			continue
+		}
+		repo := u.repoOf(dv.Path)
+		ref := ""
+		for n, rid := range repo.refs {
+			if rid == dv.rev && strings.HasPrefix(n, "dev") {
+				ref = n
+			}
+		}
+		if ref == "" {
+			continue
+		}
+		pv := u.refResolveRef(qspec{path: dv.Path, arg: ref})
+		src := all[r.IntN(len(all))]
+		if pv == "" || src.Path == dv.Path {
+			continue
+		}
+		src.Reqs = append(src.Reqs, module.Version{Path: dv.Path, Version: pv})
+		u.pseudoEdges++
+	}
 	return u
 }
 
@@ -307,7 +338,7 @@ func (u *universe) finish(all []*uVersion, r *rand.Rand) {
 	})
 	r.Shuffle(len(all), func(i, j int) { all[i], all[j] = all[j], all[i] })
 	for _, uv := range all {
-		addr := strings.Join(strings.Split(uv.Path, "/")[:3], "/")
+		addr := repoAddr(uv.Path)
 		repo := u.repos[addr]
 		rev := &fakeRev{id: fmt.Sprintf("%s-rev%d", path.Base(addr), len(repo.revs)), n: len(repo.revs), repo: repo}
 		repo.revs = append(repo.revs, rev)
@@ -608,8 +639,17 @@ func (u *universe) refResolve(q qspec, bl map[string]string) string {
 	return ""
 }
 
+// repoAddr: host/org/repo of a project path (a project at the root of its repository may carry a major suffix there)
+func repoAddr(p string) string {
+	a := strings.Join(strings.Split(p, "/")[:3], "/")
+	if i := strings.Index(a, "@"); i >= 0 {
+		a = a[:i]
+	}
+	return a
+}
+
 func (u *universe) repoOf(p string) *fakeRepo {
-	return u.repos[strings.Join(strings.Split(p, "/")[:3], "/")]
+	return u.repos[repoAddr(p)]
 }
 
 // refResolveRef: a ref names a revision; if that revision carries a tag of the queried project (path and major line) the
@@ -888,6 +928,7 @@ func mvsCase(c *core.Ctx, which, id string) {
 	res := newResolver("")
 	cur := cloneCfg(cfg)
 	var script []string
+	lastRefPath := ""
 	nops := c.N(8, 12)
 	for step := 0; step < nops; step++ {
 		before, err := bl(res, cur)
@@ -916,6 +957,19 @@ func mvsCase(c *core.Ctx, which, id string) {
 		want := ""
 		if op == "get" {
 			q = u.genQuery(r, before)
+			if cur, in := before[lastRefPath]; in && lastRefPath != "" && semver.Prerelease(cur) != "" && r.IntN(2) == 0 {
+				// right after a branch was selected (a pseudo-version): a query relative to what is selected
+				k := []string{"patch", "upgrade", "latest"}[r.IntN(3)]
+				q = qspec{path: lastRefPath, kind: k, text: lastRefPath + "@" + k}
+				if _, tagless := u.tagless[lastRefPath]; tagless {
+					q.kind, q.arg = "tagless-"+k, "main"
+				}
+				c.Count("relative_queries_on_a_selected_pseudo_version", 1)
+			}
+			lastRefPath = ""
+			if q.kind == "ref" || q.kind == "tagless-ref" || q.kind == "tagless-latest" || q.kind == "tagless-bare" {
+				lastRefPath = q.path
+			}
 			want = u.refResolve(q, before)
 			desc = "get " + q.text
 		}
